@@ -400,7 +400,8 @@ fn main() {
             Err(p) => Some(format!("panic: {p}")),
         });
     }
-    let d_ratios = [0.25, 0.5, 0.75, 1.0, 1.25, 1.5, 2.0, 2.5, 3.0, 4.0, 7.0];
+    // the last six are scale probes: steps that cross many source frames at once
+    let d_ratios = [0.25, 0.5, 0.75, 1.0, 1.25, 1.5, 2.0, 2.5, 3.0, 4.0, 7.0, 16.0, 31.5, 32.0, 33.0, 64.25, 1000.0];
     let nd_ratios = [1.0 / 3.0, 0.1, 0.7, 0.9, 1.1, 44100.0 / 48000.0, 48000.0 / 44100.0, 2.9999999999999996, 3.3, 0.01];
     let mut plans: Vec<Plan> = Vec::new();
     for &r in d_ratios.iter().chain(nd_ratios.iter()) {
@@ -430,7 +431,7 @@ fn main() {
         }
     }
     ctx.set("ratio_plans", json!(plans.len()));
-    ctx.rule(&format!("interpolator in {{Floor, Linear}} x frame type in {{f64, [f32;2], [i16;2]}} x source length 0..=8 (primed frames included) x content in {{ramp, alternating extremes}} x ratio plan: 21 constant ratios through every constructor (scale_playback_hz, from_hz_to_hz, scale_sample_hz, Signal::scale_hz, Signal::from_hz_to_hz), every per-frame ratio sequence over {{1/2,1,3/2,2}} and over {{0.7,1,1.1,3.3}} of length <= {maxlen} through mul_hz, every (r1, switch point k<6, r2, setter) plan; oracle: P_n as an exact rational (i128 x 2^-100), instrumented source: pulls == floor(P_n) (exactly for dyadic ratios, within n*2^-50 relative for others), floor output == source frame at the pulled index, linear output == straight-line blend at the exact fraction within 4 ulp / 1 LSB and inside the interval of the two frames, ratio 1 exact, is_exhausted() before each output == (source exhausted and that output pulled), output count for constant ratios in {{ceil((R+1)/r), +1}}; distinct by (configuration, output fingerprint)"));
+    ctx.rule(&format!("interpolator in {{Floor, Linear}} x frame type in {{f64, [f32;2], [i16;2]}} x source length 0..=8 (primed frames included) x content in {{ramp, alternating extremes}} x ratio plan: 27 constant ratios (incl. the scale probes 16, 31.5, 32, 33, 64.25, 1000) through every constructor (scale_playback_hz, from_hz_to_hz, scale_sample_hz, Signal::scale_hz, Signal::from_hz_to_hz), every per-frame ratio sequence over {{1/2,1,3/2,2}} and over {{0.7,1,1.1,3.3}} of length <= {maxlen} through mul_hz, every (r1, switch point k<6, r2, setter) plan; oracle: P_n as an exact rational (i128 x 2^-100), instrumented source: pulls == floor(P_n) (exactly for dyadic ratios, within n*2^-50 relative for others), floor output == source frame at the pulled index, linear output == straight-line blend at the exact fraction within 4 ulp / 1 LSB and inside the interval of the two frames, ratio 1 exact, is_exhausted() before each output == (source exhausted and that output pulled), output count for constant ratios in {{ceil((R+1)/r), +1}}; distinct by (configuration, output fingerprint)"));
     let mut cases = Vec::new();
     for fmt in ["f64", "[f32;2]", "[i16;2]"] {
         for lin in [false, true] {
